@@ -19,7 +19,7 @@ from .. import universe as U
 from ..build import build
 from ..cases import case_rng, program_for
 from ..gen import mentioned_keys, spec_hash
-from ..outcome import observe, short
+from ..outcome import canon, observe, short
 from ..ref import Ref
 from ..tap import Tap
 
@@ -40,7 +40,8 @@ RULE = (
 )
 ASSUMPTIONS = ["contradictory spellings (DISABLED false with DISABLE true) are not generated", "AllOptions is excluded (it would expose the switch keys as values)"]
 FLOORS = {"steps": (5000, 60000), "cache_off_steps": (2500, 30000), "effects_off_steps": (2000, 25000), "logging_off_steps": (2000, 25000),
-          "log_records_matched": (2500, 40000), "nocache_graph_steps": (200, 4000), "logging_context_outside_cache_context": (100, 1500)}
+          "log_records_matched": (2500, 40000), "nocache_graph_steps": (200, 4000), "logging_context_outside_cache_context": (100, 1500),
+          "log_effect_steps": (1400, 20000), "log_effect_records_matched": (100, 1500)}
 COVER = {"mode_combinations": [f"{c}/{e}/{l}" for c in CACHE_MODES for e in EFFECT_MODES for l in LOG_MODES]}
 SHARDS_QUICK = 4
 FEATURES = {"allopts": False, "domains": False, "preset_templates": False}
@@ -268,7 +269,91 @@ def modes_for(r, n, cross=False):
     return [r.choice(ALL_MODES) if r.random() < 0.7 else ("on", "on", "on") for _ in range(n)]
 
 
+def log_effect_family(ctx, r, case):
+    """Datasets whose effects emit log records themselves (LogEffect given at definition / added later, next to a plain
+    callback effect) over the full cross product of switches on one long-lived instance: the value never changes; the
+    effect's records appear once per body run when effects and logging are on, never when either is off; with logging
+    off nothing at all reaches the logging module."""
+    import labrea.logging as LL
+    from labrea import Option, dataset
+
+    records, runs, plain = [], [0], []
+
+    class H(logging.Handler):
+        def emit(self, record):
+            records.append((record.levelno, record.name, record.getMessage()))
+
+    def body(a=Option("A", 0), b=Option("S.X", "sx")):
+        runs[0] += 1
+        return ("v", a, b)
+
+    kind = r.choice(["memory", "nocache"])
+    late = r.random() < 0.5
+    eff = LL.LogEffect(logging.WARNING, "lvf.effect", "effect-record")
+    deco = dataset.nocache if kind == "nocache" else dataset
+    d = deco(body, effects=[plain.append] if late else [eff, plain.append], callback=(lambda v: ("cb", v)))
+    if late:
+        d.add_effects(eff)
+    top = dataset.nocache(lambda x=d, c=Option("C", 0): (x, c))
+    h = H()
+    root = logging.getLogger()
+    old = root.level
+    root.addHandler(h)
+    root.setLevel(logging.DEBUG)
+    modes = ALL_MODES[:]
+    r.shuffle(modes)
+    pool = [{}, {"A": 1}, {"A": 1, "C": 2}, {"S": {"X": 1}}, {"A": 2, "N1": 0}]
+    W = {"family": "log-effect", "case": case, "shard": ctx.shard, "shards": ctx.shards}
+    try:
+        for step, (cm, em, lm) in enumerate(modes):
+            o = r.choice(pool)
+            exp = (("cb", ("v", o.get("A", 0), o.get("S", {}).get("X", "sx"))), o.get("C", 0))
+            o2 = with_switches(o, cm, em, lm)
+            del records[:]
+            del plain[:]
+            before = runs[0]
+            if em == "toggle":
+                d.disable_effects()
+            ctxs = []
+            try:
+                for mk in ([labrea.cache.disabled] if cm == "context" else []) + ([labrea.logging.disabled] if lm == "context" else []):
+                    ctxs.append(mk())
+                    ctxs[-1].__enter__()
+                got = observe(top.evaluate, o2)
+            finally:
+                for c in reversed(ctxs):
+                    c.__exit__(None, None, None)
+                if em == "toggle":
+                    d.enable_effects()
+            ctx.evaluations += 1
+            ctx.count("log_effect_steps")
+            k = runs[0] - before
+            mine = [x for x in records if x[1] == "lvf.effect"]
+            Ws = {**W, "step": step, "modes": [cm, em, lm], "options": o}
+            if got != ("ok", canon(exp)):
+                ctx.violation("switch-changes-value", f"log-effect dataset, modes {cm}/{em}/{lm}: {short(got)} expected {short(canon(exp))}", Ws)
+                return
+            if lm != "on" and records:
+                ctx.violation("logging-off-but-emitted", f"modes {cm}/{em}/{lm}: {records[:3]} reached the logging module", Ws)
+                return
+            want = k if (em == "on" and lm == "on") else 0
+            if len(mine) != want or len(plain) != (k if em == "on" else 0):
+                ctx.violation("effect-log-count", f"modes {cm}/{em}/{lm}, {k} body run(s): {len(mine)} records from the LogEffect (expected {want}), plain effect called {len(plain)} time(s)", Ws)
+                return
+            if cm != "on" and k != 1 and kind == "memory":
+                ctx.violation("cache-off-does-not-recompute", f"modes {cm}/{em}/{lm}: body ran {k} times with caching off", Ws)
+                return
+            if want:
+                ctx.count("log_effect_records_matched", want)
+            ctx.nontrivial(spec_hash(["log-effect", case, step, cm, em, lm]))
+    finally:
+        root.removeHandler(h)
+        root.setLevel(old)
+
+
 def run(ctx):
+    for i in range(ctx.n(40, 600)):
+        log_effect_family(ctx, case_rng(ctx, ("logeffect", i)), i)
     rng = ctx.rng
     progs = [p for p in directed.programs() if p["datasets"] and p["name"] not in ("allopts",)]
     for i, p in enumerate(progs):
@@ -299,4 +384,8 @@ def run(ctx):
 
 def replay(ctx, rep):
     w = rep["witness"]
+    if w.get("family") == "log-effect":
+        ctx.shard, ctx.shards = w.get("shard", 0), w.get("shards", 1)
+        log_effect_family(ctx, case_rng(ctx, ("logeffect", w["case"])), w["case"])
+        return
     run_history(ctx, w["program"], w["history"], [tuple(m) for m in w["modes"]], "replay", nocache_graph=w.get("nocache_graph", False))
